@@ -3,6 +3,8 @@ package c05lib
 import (
 	"fmt"
 	"math/rand"
+	"regexp"
+	"strconv"
 	"strings"
 
 	. "verifharness/hlib"
@@ -18,12 +20,30 @@ var jsonStringTokens = []string{
 
 // HostileJSONString returns the text between the quotes of a string member.
 func HostileJSONString(r *rand.Rand, st *Stats) string {
-	var sb strings.Builder
-	n := r.Intn(6)
-	for i := 0; i < n; i++ {
-		sb.WriteString(jsonStringTokens[r.Intn(len(jsonStringTokens))])
+	for {
+		var sb strings.Builder
+		n := r.Intn(6)
+		for i := 0; i < n; i++ {
+			sb.WriteString(jsonStringTokens[r.Intn(len(jsonStringTokens))])
+		}
+		// neighbouring tokens can complete a cut escape (`\u12` + `A` + `a` = \u12Aa, a rune >= 0x80,
+		// which the model of gjson does not cover - found by a thorough run, one stream in 10000):
+		// such a draw is repeated
+		if !highUEscape(sb.String()) {
+			return sb.String()
+		}
 	}
-	return sb.String()
+}
+
+var uEscapeRE = regexp.MustCompile(`\\u([0-9a-fA-F]{4})`)
+
+func highUEscape(s string) bool {
+	for _, m := range uEscapeRE.FindAllStringSubmatch(s, -1) {
+		if v, err := strconv.ParseUint(m[1], 16, 32); err == nil && v >= 0x80 {
+			return true
+		}
+	}
+	return false
 }
 
 // HostileJSONInt returns an int32 in plain decimal (possibly beyond a byte, negative, with
